@@ -735,7 +735,7 @@ theorem C01_C19_scalar_not_merged (d : Bytes) (k : Nat) (s rest : Bytes)
     (h : splitAtScalar (d.take k) = some (s, rest)) :
     ∃ s' rest', splitAtScalar d = some (s', rest') ∧ s <+: s' ∧ (s = s' ∨ rest = []) ∧
       ∀ i (hi : i < s.length), 0 < i → isBoundary s[i] = false :=
-  C19_scalar_not_merged C01_tables_sse_eq_tab d k s rest h
+  C19_scalar_not_merged d k s rest h
 
 /-- `ab=c` cut after `a`. -/
 example : splitAtScalar (([97, 98, 61, 99] : Bytes).take 1) = some ([97], []) := by decide +kernel
